@@ -11,6 +11,12 @@ import (
 
 // bindingFormsTable reads lint.bindingForms: form -> funBinding.
 func (c *Ctx) lintBindingForms() (map[string]bool, ast.Node, string) {
+	return c.lintBindingFormsField("funBinding", 0)
+}
+
+// lintBindingFormsField reads one boolean field of lint.bindingForms' entries
+// (by key, or by position for unkeyed literals).
+func (c *Ctx) lintBindingFormsField(field string, position int) (map[string]bool, ast.Node, string) {
 	p := c.Pkg("lint")
 	if p == nil {
 		return nil, nil, "package lint not loaded"
@@ -40,12 +46,12 @@ func (c *Ctx) lintBindingForms() (map[string]bool, ast.Node, string) {
 				}
 				flag := false
 				if vcl, ok := kv.Value.(*ast.CompositeLit); ok {
-					for _, fe := range vcl.Elts {
+					for i, fe := range vcl.Elts {
 						if fkv, ok := fe.(*ast.KeyValueExpr); ok {
-							if id, ok := fkv.Key.(*ast.Ident); ok && id.Name == "funBinding" {
+							if id, ok := fkv.Key.(*ast.Ident); ok && id.Name == field {
 								flag = isBoolConst(info, fkv.Value, true)
 							}
-						} else if isBoolConst(info, fe, true) {
+						} else if i == position && isBoolConst(info, fe, true) {
 							flag = true
 						}
 					}
@@ -230,83 +236,173 @@ func init() {
 		}})
 
 	register(&Rule{ID: "ARITY.shadow-superset", Floor: 5,
-		Doc: "for every binding form, the region in which lint exempts calls to a locally bound name covers the binding's run-time scope: when the evaluator evaluates the binding value forms in the environment that receives the bindings (let*, labels) the exemption walk includes the binding list — a call that reaches the local binding is never reported against the builtin of the same name",
+		Doc: "for every binding form the region in which lint exempts calls to a name the form binds IS the binding's run-time scope, as far as the value side of the entries goes: lint's table says valuesInScope exactly for the operators whose implementation evaluates the entries in the environment that receives the bindings (let*, labels), and the marking function walks the entries with the bound names only under that flag — always the body; never the binding list for let / flet / macrolet, whose entries are evaluated before the names exist (a call there reaches the builtin and must be checked)",
 		Run: func(c *Ctx) []Obligation {
+			const rid = "ARITY.shadow-superset"
 			table, _, prob := c.lintBindingForms()
 			if prob != "" {
-				return []Obligation{anchorMissing("ARITY.shadow-superset", prob)}
+				return []Obligation{anchorMissing(rid, prob)}
 			}
+			inScope, _, _ := c.lintBindingFormsField("valuesInScope", 1)
 			fn, fd, pkg := c.LookupFunc("lint.markLocallyShadowedCalls")
 			walk := c.LookupPkgFunc("lint.WalkSExprs")
+			collect := c.LookupPkgFunc("lint.CollectFormals")
 			if fn == nil || walk == nil {
-				return []Obligation{anchorMissing("ARITY.shadow-superset", "lint.markLocallyShadowedCalls / WalkSExprs")}
+				return []Obligation{anchorMissing(rid, "lint.markLocallyShadowedCalls / WalkSExprs")}
 			}
 			u := FuncUnit{fn, fd, pkg}
 			info := pkg.TypesInfo
-			var formP, flagP types.Object
+			var formP, bindsP types.Object
+			var boolPs []types.Object
 			for _, p := range paramObjs(u) {
-				if strings.HasSuffix(p.Type().String(), "lisp.LVal") && formP == nil {
-					formP = p
+				if strings.HasSuffix(p.Type().String(), "lisp.LVal") {
+					if formP == nil {
+						formP = p
+					} else if bindsP == nil {
+						bindsP = p
+					}
 				}
-				if types.Identical(p.Type(), types.Typ[types.Bool]) && flagP == nil {
-					flagP = p
+				if types.Identical(p.Type(), types.Typ[types.Bool]) {
+					boolPs = append(boolPs, p)
 				}
 			}
-			// lintCovers(flag): does the walk start from the whole form?
-			lintCovers := func(flag bool) (bool, string) {
-				skip := flagPruner(info, fd.Body, flagP, flag)
-				var walkArg ast.Expr
-				ast.Inspect(fd.Body, func(n ast.Node) bool {
-					if skip(n) {
-						return false
+			var funP, scopeP types.Object
+			for _, p := range boolPs {
+				switch p.Name() {
+				case "valuesInScope":
+					scopeP = p
+				default:
+					if funP == nil {
+						funP = p
 					}
-					if ce, ok := n.(*ast.CallExpr); ok && originOf(Callee(info, ce)) == walk && len(ce.Args) >= 1 {
-						walkArg = ce.Args[0]
-					}
-					return true
-				})
-				if walkArg == nil {
-					return false, "no WalkSExprs call"
 				}
-				whole := func(e ast.Expr) bool {
-					cl, ok := ast.Unparen(e).(*ast.CompositeLit)
-					if !ok {
-						return false
+			}
+			// local closures that forward (region, names) to WalkSExprs
+			markers := map[types.Object]bool{}
+			ast.Inspect(fd.Body, func(n ast.Node) bool {
+				as, ok := n.(*ast.AssignStmt)
+				if !ok || len(as.Lhs) != 1 || len(as.Rhs) != 1 {
+					return true
+				}
+				lit, ok := as.Rhs[0].(*ast.FuncLit)
+				if !ok || lit.Type.Params == nil || len(lit.Type.Params.List) < 2 {
+					return true
+				}
+				first := info.Defs[lit.Type.Params.List[0].Names[0]]
+				for _, ce := range callsIn(lit.Body, false) {
+					if originOf(Callee(info, ce)) == walk && len(ce.Args) >= 1 && identObj(info, ce.Args[0]) == first {
+						markers[identObj(info, as.Lhs[0])] = true
 					}
+				}
+				return true
+			})
+			// names maps that receive formals are "parameter" name sets
+			paramNames := map[types.Object]bool{}
+			ast.Inspect(fd.Body, func(n ast.Node) bool {
+				if ce, ok := n.(*ast.CallExpr); ok && collect != nil && originOf(Callee(info, ce)) == collect && len(ce.Args) == 2 {
+					if o := identObj(info, ce.Args[1]); o != nil {
+						paramNames[o] = true
+					}
+				}
+				return true
+			})
+			// entry variables: range values over binds.Cells
+			entryVars := map[types.Object]bool{}
+			ast.Inspect(fd.Body, func(n ast.Node) bool {
+				if rs, ok := n.(*ast.RangeStmt); ok && rs.Value != nil {
+					if se, ok := ast.Unparen(rs.X).(*ast.SelectorExpr); ok && se.Sel.Name == "Cells" && identObj(info, se.X) == bindsP {
+						entryVars[identObj(info, rs.Value)] = true
+					}
+				}
+				return true
+			})
+			classify := func(e ast.Expr) string {
+				e = ast.Unparen(e)
+				if cl, ok := e.(*ast.CompositeLit); ok {
 					for _, el := range cl.Elts {
 						if identObj(info, el) == formP {
-							return true
+							return "form"
+						}
+						if identObj(info, el) == bindsP {
+							return "entries"
 						}
 					}
-					return false
+					return "other"
 				}
-				if whole(walkArg) {
-					return true, "walks the whole form"
+				cells := func(x ast.Expr) (types.Object, bool) {
+					se, ok := ast.Unparen(x).(*ast.SelectorExpr)
+					if !ok || se.Sel.Name != "Cells" {
+						return nil, false
+					}
+					return identObj(info, se.X), true
 				}
-				// a local: the last live assignment decides
-				if o := identObj(info, walkArg); o != nil {
-					var last ast.Expr
-					ast.Inspect(fd.Body, func(n ast.Node) bool {
-						if skip(n) {
-							return false
-						}
-						if as, ok := n.(*ast.AssignStmt); ok && len(as.Lhs) == len(as.Rhs) {
-							for i, l := range as.Lhs {
-								if identObj(info, l) == o {
-									last = as.Rhs[i]
-								}
+				if sl, ok := e.(*ast.SliceExpr); ok {
+					if o, ok := cells(sl.X); ok {
+						lo := 0
+						if sl.Low != nil {
+							if v, ok := intConst(info, sl.Low); ok {
+								lo = v
+							} else {
+								return "other"
 							}
 						}
-						return true
-					})
-					if last != nil && whole(last) {
-						return true, "walks the whole form"
+						switch {
+						case o == formP && lo >= 2:
+							return "body"
+						case o == formP:
+							return "form"
+						case o == bindsP || entryVars[o]:
+							return "entries"
+						}
 					}
-					if last != nil {
-						return false, "walks `" + types.ExprString(last) + "`"
+					return "other"
+				}
+				if o, ok := cells(e); ok {
+					switch {
+					case o == formP:
+						return "form"
+					case o == bindsP || entryVars[o]:
+						return "entries"
 					}
 				}
-				return false, "walks `" + types.ExprString(walkArg) + "`"
+				return "other"
+			}
+			type region struct{ where, names string }
+			regionsUnder := func(fun, scope bool) (rs []region, undecided string) {
+				s1 := flagPruner(info, fd.Body, funP, fun)
+				s2 := flagPruner(info, fd.Body, scopeP, scope)
+				ast.Inspect(fd.Body, func(n ast.Node) bool {
+					if n != nil && (s1(n) || s2(n)) {
+						return false
+					}
+					if lit, ok := n.(*ast.FuncLit); ok {
+						_ = lit
+						return false // the marker closure itself
+					}
+					ce, ok := n.(*ast.CallExpr)
+					if !ok {
+						return true
+					}
+					var regionArg, namesArg ast.Expr
+					if o := identObj(info, ce.Fun); o != nil && markers[o] && len(ce.Args) >= 2 {
+						regionArg, namesArg = ce.Args[0], ce.Args[1]
+					} else if originOf(Callee(info, ce)) == walk && len(ce.Args) >= 1 {
+						regionArg = ce.Args[0]
+					} else {
+						return true
+					}
+					w := classify(regionArg)
+					nm := "bound"
+					if namesArg != nil && paramNames[identObj(info, namesArg)] {
+						nm = "params"
+					}
+					if w == "other" {
+						undecided = "walk over `" + types.ExprString(regionArg) + "` not classified"
+					}
+					rs = append(rs, region{w, nm})
+					return true
+				})
+				return
 			}
 			var obs []Obligation
 			var ks []string
@@ -315,19 +411,41 @@ func init() {
 			}
 			sort.Strings(ks)
 			for _, k := range ks {
-				covers, how := lintCovers(table[k])
 				ev, eu, eprob := c.evaluatorValueScope(k)
 				construct := "form " + k
+				if eprob != "" {
+					obs = append(obs, mkOb(c, rid, u, construct, fd, Undecided, eprob, false))
+					continue
+				}
+				inner := ev.String() != "outer"
+				rs, und := regionsUnder(table[k], inScope[k])
+				body, entries := false, false
+				for _, r := range rs {
+					if r.names != "bound" {
+						continue
+					}
+					switch r.where {
+					case "body":
+						body = true
+					case "form":
+						body, entries = true, true
+					case "entries":
+						entries = true
+					}
+				}
 				switch {
-				case eprob != "":
-					obs = append(obs, mkOb(c, "ARITY.shadow-superset", u, construct, fd, Undecided, eprob, false))
-				case covers:
-					obs = append(obs, mkOb(c, "ARITY.shadow-superset", u, construct, fd, Proved, "lint "+how+" (covers any run-time scope; evaluator "+eu.Name()+": "+ev.String()+")", true))
-				case ev.String() == "outer":
-					obs = append(obs, mkOb(c, "ARITY.shadow-superset", u, construct, fd, Proved, "lint "+how+"; the evaluator evaluates the binding values in the enclosing environment, so they are outside the binding's scope", true))
+				case und != "":
+					obs = append(obs, mkOb(c, rid, u, construct, fd, Undecided, und, true))
+				case inScope[k] != inner:
+					obs = append(obs, mkOb(c, rid, u, construct, fd, Violated, fmt.Sprintf("lint's table says valuesInScope=%v for `%s` but the evaluator (%s) evaluates the entries in the %s environment", inScope[k], k, eu.Name(), ev.String()), true))
+				case !body:
+					obs = append(obs, mkOb(c, rid, u, construct, fd, Violated, "the body of the form is not walked with the bound names: a call in the body that reaches the local binding is reported against the builtin", true))
+				case inner && !entries:
+					obs = append(obs, mkOb(c, rid, u, construct, fd, Violated, "the evaluator ("+eu.Name()+") evaluates the entries of `"+k+"` in the environment that receives the bindings, but lint does not walk the entries: a call in a value form that reaches an earlier local binding is reported against the builtin", true))
+				case !inner && entries:
+					obs = append(obs, mkOb(c, rid, u, construct, fd, Violated, "the evaluator ("+eu.Name()+") evaluates the entries of `"+k+"` in the ENCLOSING environment, before the names exist, but lint exempts calls to the bound names inside the entries too: (let ((get f) (y (get 5))) y) calls the builtin get with one argument and is not reported", true))
 				default:
-					obs = append(obs, mkOb(c, "ARITY.shadow-superset", u, construct, fd, Violated,
-						"lint "+how+" but the evaluator ("+eu.Name()+") evaluates the binding values of `"+k+"` in the "+ev.String()+" environment: a call in a value form that reaches an earlier local binding is reported against the builtin", true))
+					obs = append(obs, mkOb(c, rid, u, construct, fd, Proved, fmt.Sprintf("body walked; entries walked with the bound names: %v; evaluator %s: %s", entries, eu.Name(), ev.String()), true))
 				}
 			}
 			return obs
